@@ -256,12 +256,14 @@ def joinEv (_c : JoinWG.Cfg) (st : Sites) (mid : String) (posOf : Nat → Nat) (
     | some j =>
       let i := posOf j   -- channel j is listened to at the position of its first occurrence
       match e.kind with
-      | "send" => need (e.site == s!"prod{j}" && (s.ch i).cap > 0) "send-in"; some' (.pSend i) (some e.val)
+      -- the producer of channel j: its own goroutine, or the single round-robin producer "rr" (one of the interleavings
+      -- of the independent producers of the model)
+      | "send" => need ((e.site == s!"prod{j}" || e.site == "rr") && (s.ch i).cap > 0) "send-in"; some' (.pSend i) (some e.val)
       | "xfer" => do
         let k ← fwd e.g2
-        need (e.site == s!"prod{j}" && k == i && (s.ch i).cap == 0) "xfer-in"
+        need ((e.site == s!"prod{j}" || e.site == "rr") && k == i && (s.ch i).cap == 0) "xfer-in"
         some' (.pSend i) (some e.val)
-      | "close" => need (e.site == s!"prod{j}") "close-in"; some' (.pClose i) none
+      | "close" => need (e.site == s!"prod{j}" || e.site == "rr") "close-in"; some' (.pClose i) none
       | "recv" => do let k ← fwd e.g; need (k == i) "recv-in-by-wrong-forwarder"; some' (.fRecv i) (some e.val)
       | "recvc" => do let k ← fwd e.g; need (k == i) "recvc-in-by-wrong-forwarder"; some' (.fRecv i) none
       | _ => pure none
@@ -296,7 +298,7 @@ def joinwgEv (c : JoinWG.Cfg) (tagOf posOf capOfChan : Nat → Nat) (nchan : Nat
       if !c.chanForm && e.site2 == "join#1" then
         -- slice form: the goroutine that waits and closes is started after the loop over the list
         need (e.site == "main" && s.pc == .wait) "waiter-started-before-the-list-was-read"; pure (sr, false)
-      else envGo e ["prod", "oprod", "join#0", "cons0"]; pure (sr, false)
+      else envGo e ["prod", "rr", "oprod", "join#0", "cons0"]; pure (sr, false)
     | "send", "outer" => need (e.site == "oprod" && c.ocap > 0) "send-outer"; outerStep .oSend (some e.val) roles
     | "xfer", "outer" => need (e.site == "oprod" && e.site2 == "join#0" && c.ocap == 0) "xfer-outer"; outerStep .oSend (some e.val) roles
     | "close", "outer" => need (e.site == "oprod") "close-outer"; outerStep .oClose none roles
